@@ -5,6 +5,7 @@ import (
 	"errors"
 	"fmt"
 	"io"
+	"math"
 	"net/http"
 	"net/url"
 	"time"
@@ -52,7 +53,7 @@ func isPrefix(got, of []*gen.Msg) (bool, string) {
 }
 
 func c04(run *ev.Run) int {
-	run.SetRule("faults = every cut offset k in [0,len(body)] of every recorded valid response and request body (3 protocols x codecs x 4 kinds x {0,1,3} messages x {ok,error} x gzip on/off) x ending {clean EOF, unexpected EOF, transport error} x HTTP trailers {present, absent}; plus failure of the j-th ResponseWriter.Write for every j, and a client transport whose Do fails after j request-body reads with {an opaque error, an error wrapping io.EOF, one wrapping io.ErrUnexpectedEOF}; oracle: success only when the terminator arrived, otherwise coded error, delivered is a prefix of sent, no hang/panic; distinct by (body, fault class: position relative to frame boundary, ending, trailers)")
+	run.SetRule("faults = every cut offset k in [0,len(body)] of every recorded valid response and request body (3 protocols x codecs x 4 kinds x {0,1,3} messages x {ok,error} x gzip on/off) x ending {clean EOF, unexpected EOF, transport error} x HTTP trailers {present, absent} x receiver read limit {none, 1 MiB, MaxInt}; plus failure of the j-th ResponseWriter.Write for every j, and a client transport whose Do fails after j request-body reads with {an opaque error, an error wrapping io.EOF, one wrapping io.ErrUnexpectedEOF}; oracle: success only when the terminator arrived, otherwise coded error, delivered is a prefix of sent, no hang/panic; distinct by (body, fault class: position relative to frame boundary, ending, trailers)")
 	run.Assume("clean-EOF truncation of a unary Connect 200 body is observationally indistinguishable and excluded")
 	spec := corpusSpec{protos: svc.Protocols, codecs: []string{"proto"}, kinds: svc.Kinds, gzips: []bool{false, true},
 		counts: []int{0, 1, 3}, scenarios: []string{"ok", "err"}}
@@ -113,7 +114,7 @@ func c04Response(run *ev.Run, rec *recorded, key string) {
 						got = c04ReplaySpurious(rec, &wire.ScriptedBody{Data: body[:k], FinalErr: e.err}, !withTr)
 						return
 					}
-					got, _ = rec.replayResponse(&wire.ScriptedBody{Data: body[:k], FinalErr: e.err}, withTr)
+					got, _ = rec.replayResponse(&wire.ScriptedBody{Data: body[:k], FinalErr: e.err}, withTr, c04Limit(k)...)
 				})
 				if ok && got == nil {
 					continue
@@ -228,7 +229,7 @@ func c04Request(run *ev.Run, rec *recorded, key string) {
 			var hl *svc.HLog
 			var res *wire.Result
 			ok, dump := watchdog(30*time.Second, func() {
-				hl, res = rec.replayRequest(&wire.ScriptedBody{Data: body[:k], FinalErr: e.err}, prog())
+				hl, res = rec.replayRequest(&wire.ScriptedBody{Data: body[:k], FinalErr: e.err}, prog(), c04HLimit(k)...)
 			})
 			_, atB := bounds[k]
 			pos := "mid-frame"
@@ -435,4 +436,27 @@ func c04ReplaySpurious(rec *recorded, body *wire.ScriptedBody, addTrailers bool)
 	}}
 	cs := svc.NewClientSet(cn, "http://verif.local", rec.COpts...)
 	return cs.Do(context.Background(), rec.Kind, "replay", nil, rec.Sends)
+}
+
+// c04Limit / c04HLimit: two cuts in three run with a read limit on the
+// receiver - a generous one, or one at the top of the integer range (what
+// "effectively unlimited" configurations use) - which selects other read paths.
+func c04Limit(k int) []connect.ClientOption {
+	switch k % 3 {
+	case 1:
+		return []connect.ClientOption{connect.WithReadMaxBytes(1 << 20)}
+	case 2:
+		return []connect.ClientOption{connect.WithReadMaxBytes(math.MaxInt)}
+	}
+	return nil
+}
+
+func c04HLimit(k int) []connect.HandlerOption {
+	switch k % 3 {
+	case 1:
+		return []connect.HandlerOption{connect.WithReadMaxBytes(1 << 20)}
+	case 2:
+		return []connect.HandlerOption{connect.WithReadMaxBytes(math.MaxInt)}
+	}
+	return nil
 }
